@@ -6,8 +6,10 @@ MODULE = "NadaVerif.Props.C01"
 TRANSLATORS = None
 THEOREMS = [f"NadaVerif.C01.{n}" for n in (
     "schema_refs_subset_children", "astSchema_eq_model", "compile_tables_closed", "compile_outputs_resolve",
-    "compile_entries_from_store", "compile_acyclic", "trace_compile_acyclic", "history_compile_acyclic", "compile_fn_refs_resolve", "compile_input_literal_refs_resolve")] + \
-    ["NadaVerif.Lemmas.exec_spec", "NadaVerif.Lemmas.trace_storeWF"]
+    "compile_entries_from_store", "compile_acyclic", "trace_compile_acyclic", "history_compile_acyclic", "compile_fn_refs_resolve", "compile_input_literal_refs_resolve",
+    "trace_compile_no_missing", "history_compile_no_missing", "trace_store_closed")] + \
+    ["NadaVerif.Lemmas.exec_spec", "NadaVerif.Lemmas.trace_storeWF", "NadaVerif.Lemmas.exec_sto", "NadaVerif.Lemmas.trace_stored",
+     "NadaVerif.Lemmas.compile_nk"]
 
 
 def oracle(mir, rec):
